@@ -11,13 +11,16 @@
 (*                     later returned ("ok" | "fail" | "none" = not seen)   *)
 (*   ok     t c        Acquire / TryToAcquire(TRUE) has returned; inside    *)
 (*                     the lock t read the value c of the protected counter *)
-(*   fail   t          TryToAcquire returned FALSE                          *)
+(*   fail   t eq       TryToAcquire returned FALSE; eq: the raw lock word   *)
+(*                     was identical before and after it (1), differed (0), *)
+(*                     or was not measured (-1: other calls were in flight) *)
 (*   rel    t          t wrote counter+1 and is about to call Release       *)
 (*   relret t          Release has returned                                 *)
 (*   srel t / srelret t   call / return of a Release by a task that holds   *)
 (*                     nothing, issued while the lock is free and no other  *)
 (*                     call is in progress (must have no effect)            *)
-(*   probe  st         the controller read the lock word: st                *)
+(* The lock word is never interpreted: whether the lock is free is seen     *)
+(* through the lock's own API (an observer task's TryToAcquire/Release).     *)
 (*   nb     n0 n1      the 4 bytes behind the lock word (the lock is the    *)
 (*                     first field of a cell: zero / a datum / another held *)
 (*                     lock) before and after the case                      *)
@@ -29,7 +32,7 @@
 (* consumed line number kept in TLC register 1 (one worker).                *)
 (* Only definite facts can fail: an `ok` while another task holds the lock, *)
 (* a `fail` although the lock was free during the whole call, a counter     *)
-(* value that misses an update, a lock word that contradicts the holders.   *)
+(* value that misses an update, a failed try that changed the lock word.    *)
 (***************************************************************************)
 EXTENDS Spinlock, TLC, Json, IOUtils
 Trace == ndJsonDeserialize(IOEnv.TRACE)
@@ -41,12 +44,11 @@ Init == /\ TLCSet(1, 1) /\ LockInit /\ l = 1 /\ res = [t \in Tasks |-> "none"]
 Event(e) ==
   CASE e.k = "call"   -> Call(e.t, e.op) /\ res' = [res EXCEPT ![e.t] = e.res]
     [] e.k = "ok"     -> RetOk(e.t) /\ counter = e.c /\ UNCHANGED res
-    [] e.k = "fail"   -> RetFail(e.t) /\ UNCHANGED res
+    [] e.k = "fail"   -> RetFail(e.t) /\ e.eq # 0 /\ UNCHANGED res      \* "false without side effects": the raw word is as it was
     [] e.k = "rel"    -> RelCall(e.t) /\ UNCHANGED res
     [] e.k = "relret" -> RelRet(e.t) /\ UNCHANGED res
     [] e.k = "srel"   -> StrayCall(e.t) /\ UNCHANGED res
     [] e.k = "srelret" -> StrayRet(e.t) /\ UNCHANGED res
-    [] e.k = "probe"  -> ((e.st = 0) <=> (state = 0)) /\ UNCHANGED <<state, pc, counter, tmp, done, res>>
     [] e.k = "nb"     -> e.n0 = e.n1 /\ UNCHANGED <<state, pc, counter, tmp, done, res>>      \* lock operations never touch the neighbour
     [] e.k = "reset"  -> /\ state' = 0 /\ pc' = [t \in Tasks |-> "idle"] /\ counter' = 0
                          /\ tmp' = [t \in Tasks |-> 0] /\ done' = 0 /\ res' = [t \in Tasks |-> "none"]
